@@ -208,6 +208,60 @@ def r_gram_exh(ck: Checker) -> None:
         ck.incomplete("R-GRAM-EXH", None, None, f"only {n} grammar rules (7 expected)")
 
 
+
+def mutable_globals(ck: Checker) -> dict[str, set[str]]:
+    out: dict[str, set[str]] = {}
+    for m in ck.repo.mods.values():
+        names = set()
+        for st in m.tree.body:
+            tg = val = None
+            if isinstance(st, ast.Assign) and len(st.targets) == 1 and isinstance(st.targets[0], ast.Name):
+                tg, val = st.targets[0].id, st.value
+            elif isinstance(st, ast.AnnAssign) and isinstance(st.target, ast.Name):
+                tg, val = st.target.id, st.value
+            if tg and val is not None and (isinstance(val, (ast.Dict, ast.List, ast.Set)) or (
+                    isinstance(val, ast.Call) and (dotted(val.func) or "").split(".")[-1] in ("dict", "list", "set", "WeakValueDictionary", "defaultdict", "OrderedDict", "deque"))):
+                names.add(tg)
+        out[m.name] = names
+    return out
+
+
+def r_no_memo(ck: Checker) -> None:
+    """A memoised function must not read a mutable registry: its answer would go stale when the registry changes
+    (a class defined after a first failed lookup would stay unknown for ever)."""
+    mg = mutable_globals(ck)
+    all_mutable = set().union(*mg.values())
+    n = 0
+    for f in ck.repo.functions(list(ck.repo.mods.values())):
+        memo = [dotted(d.func if isinstance(d, ast.Call) else d) or "" for d in f.node.decorator_list]
+        memo = [d for d in memo if d.split(".")[-1] in ("lru_cache", "cache", "cached", "cached_property")]
+        if not memo:
+            continue
+        n += 1
+        aliases = ck.repo.import_aliases(f.mod)
+        reads = set()
+        for nn in walk_body(f.node.body):
+            if isinstance(nn, ast.Name) and isinstance(nn.ctx, ast.Load):
+                real = aliases.get(nn.id, nn.id)
+                if real in mg.get(f.mod.name, set()) or (nn.id in aliases and real in all_mutable):
+                    reads.add(nn.id)
+        what = "memoised functions read no mutable registry (their answers cannot go stale)"
+        if reads:
+            ck.violation("R-NO-MEMO", f, f.node, what, construct=f"{f.qualname} is memoised ({memo[0]}) but reads the mutable registry {sorted(reads)}")
+        else:
+            ck.holds("R-NO-MEMO", f, f.node, what, decorator=memo[0])
+    for q in (("pyoak.match.helpers", "check_and_get_ast_node_type"), ("pyoak.legacy.match.helpers", "check_and_get_ast_node_type")):
+        f = ck.repo.func(*q)
+        what = "class names are resolved against the live TYPES registry on every compilation"
+        reads_types = any(isinstance(nn, ast.Name) and nn.id == "TYPES" for nn in walk_body(f.node.body))
+        if reads_types and not f.node.decorator_list:
+            ck.holds("R-NO-MEMO", f, f.node, what)
+        elif not reads_types:
+            ck.violation("R-NO-MEMO", f, f.node, what, construct=f"{f.qualname} does not consult TYPES")
+    if n < 15:
+        ck.incomplete("R-NO-MEMO", None, None, f"only {n} memoised functions found (>= 15 expected)")
+
+
 ENTRIES = [
     (XP, "ASTXpath.__init__", {"ASTXpathDefinitionError"}, {"xpath"}),
     (PAT, "NodeMatcher.from_pattern", set(), {"pattern_def"}),
@@ -231,5 +285,8 @@ def run(ck: Checker) -> None:
     ck.guard("R-ENTRY-SIBLING", lambda: r_entry_sibling(ck))
     ck.guard("R-GRAM-EXH", lambda: r_gram_exh(ck))
     ck.guard("R-POSTINIT-IDEMP", lambda: r_postinit_idemp(ck))
+    from .c07 import r_xp_elements
+    ck.guard("R-XP-ELEMENTS", lambda: r_xp_elements(ck))
+    ck.guard("R-NO-MEMO", lambda: r_no_memo(ck))
     ck.require_count("R-EXC-ESCAPE", 4)
     ck.require_count("R-GRAM-EXH", 8)
